@@ -695,7 +695,11 @@ class FlatActionSpace(spaces.Discrete):
         Action
             Corresponding Action object
         """
-        assert isinstance(action_idx, int), \
+        if isinstance(action_idx, np.ndarray) and action_idx.shape == () \
+           and np.issubdtype(action_idx.dtype, np.integer):
+            # 0-d integer arrays are members of a Discrete space
+            action_idx = int(action_idx)
+        assert isinstance(action_idx, (int, np.integer)), \
             ("When using flat action space, action must be an integer"
              f" or an Action object: {action_idx} is invalid")
         return self.actions[action_idx]
